@@ -5872,7 +5872,7 @@ class ConcreteEval:
             if attr == "cancelled":
                 return _CPrim(lambda: v.cancelled)
             if attr == "when":
-                return _CPrim(lambda: self.loop.now + v.delay)
+                return _CPrim(lambda: v.due if getattr(v, "due", None) is not None else self.loop.now + v.delay)
             raise CUnsupported("handle.%s" % attr)
         if isinstance(v, (CVal, CClosure, CMethod, _CPrim)):
             raise CUnsupported("attribute %s of %r" % (attr, v))
@@ -5887,6 +5887,7 @@ class ConcreteEval:
 
     def _arm(self, delay, cb, args):
         h = CHandle(delay, cb, tuple(args))
+        h.due = (self.loop.now + delay) if isinstance(delay, (int, float)) and not isinstance(delay, bool) else None  # absolute loop time
         self.loop.handles.append(h)
         return h
 
@@ -6542,3 +6543,121 @@ def recent_subset_invariant(prog, cls, skip=("__init__",)):
                     if not isinstance(ra, (set, frozenset)) or not isinstance(it, dict) or not ra <= set(it.keys()):
                         return False, "%s can mark a key that is not stored" % fi.short
     return True, None
+
+
+# ---- lifetimes over histories -------------------------------------------------------------------------------------------
+class HistoryRun:
+    """the outcome of one concrete history of a TimeoutDict on a loop whose timers fire exactly when due"""
+
+    def __init__(self, events, probe_key, probe_at):
+        self.events, self.probe_key, self.probe_at = events, probe_key, probe_at
+        self.last_use = None  # loop time (in lifetimes) of the last successful get / set of the probed key
+        self.value = None  # the value object stored by the last set of the probed key
+        self.found = None  # what the probing lookup returned; None with .missing when it raised KeyError
+        self.missing = False
+        self.raised = None  # any other exception (from an access, a timer callback or the probe)
+        self.raised_in = None
+        self.early_loss = None  # (key, time): a lookup among the events that found nothing less than one lifetime after the key's last use
+
+    def describe(self):
+        ev = ", ".join("%s k%d at %.3gT" % (op, key[1], t) for t, op, key in self.events)
+        return "%s; lookup of k%d at %.4gT" % (ev, self.probe_key[1], self.probe_at)
+
+
+def _history_fire(ce, until):
+    """run the pending timers that are due up to loop time `until`, in the order in which they are due"""
+    loop = ce.loop
+    while True:
+        due = [h for h in loop.handles if not h.cancelled and not getattr(h, "fired", False)]
+        for h in due:
+            if getattr(h, "due", None) is None:
+                raise CUnsupported("a timer whose time is not a number")
+        due = [h for h in due if h.due <= until]
+        if not due:
+            break
+        h = min(due, key=lambda x: x.due)
+        h.fired = True  # no longer pending
+        loop.now = max(loop.now, h.due)
+        ce.call(h.callback, list(h.args), {})
+    loop.now = max(loop.now, until)
+
+
+def history_tables():
+    """Histories over two keys: the first key is set at time 0, then up to two further accesses (look the first key up, set
+    it again, set the other key) each 1/4, 3/4, 1 1/2 or 6 1/4 lifetimes after the previous one -- within a period, across
+    one tick, across an idle phase in which the timer has stopped, long after it; times carry a small distinct offset so
+    that no access coincides with a tick.  -> [events]"""
+    k1, k2 = (0, 1), (0, 2)
+    gaps = (0.25, 0.75, 1.5, 6.25)
+    acts = (("get", k1), ("set", k1), ("set", k2))
+    out = [[(0.0, "set", k1)]]
+    frontier = list(out)
+    for depth in (1, 2):
+        nxt = []
+        for h in frontier:
+            for g in gaps:
+                for op, key in acts:
+                    nxt.append(h + [(h[-1][0] + g + 0.001, op, key)])
+        out.extend(nxt)
+        frontier = nxt
+    return out
+
+
+def run_history(prog, cls, lifetime, events, probe_key, probe_at):
+    """One history: a fresh `cls(lifetime)`; `events` = [(time in lifetimes, "set" | "get", key)] in time order, then a lookup
+    of `probe_key` at `probe_at` lifetimes.  Only the public protocol is used (__init__, __setitem__, __getitem__) and the
+    event loop's clock and timers.  -> HistoryRun; raises CUnsupported."""
+    ce = ConcreteEval(prog)
+    t0 = ce.loop.now
+    obj = CObj(cls, {})
+    init = prog.lookup_method(cls.qn, "__init__")
+    seti = prog.lookup_method(cls.qn, "__setitem__")
+    geti = prog.lookup_method(cls.qn, "__getitem__")
+    if init is None or seti is None or geti is None:
+        raise CUnsupported("no __init__ / __setitem__ / __getitem__")
+    run = HistoryRun(events, probe_key, probe_at)
+    try:
+        ce.call_method(obj, init, [lifetime])
+    except CRaise as r:
+        raise CUnsupported("__init__(timeout) raises %s" % type(r.exc).__name__)
+    n = 0
+    used = {}
+    for t, op, key in events:
+        try:
+            _history_fire(ce, t0 + t * lifetime)
+        except CRaise as r:
+            run.raised, run.raised_in = r.exc, "a timer callback"
+            return run
+        try:
+            if op == "set":
+                n += 1
+                v = CVal("v%d" % n)
+                ce.call_method(obj, seti, [key, v])
+                used[key] = t
+                if key == probe_key:
+                    run.last_use, run.value = t, v
+            else:
+                ce.call_method(obj, geti, [key])
+                used[key] = t
+                if key == probe_key:
+                    run.last_use = t
+        except CRaise as r:
+            if op == "get" and isinstance(r.exc, KeyError):
+                if key in used and t < used[key] + 1 and run.early_loss is None:
+                    run.early_loss = (key, t)
+                continue  # an unsuccessful lookup is no use
+            run.raised, run.raised_in = r.exc, "%s at %.3gT" % (op, t)
+            return run
+    try:
+        _history_fire(ce, t0 + probe_at * lifetime)
+    except CRaise as r:
+        run.raised, run.raised_in = r.exc, "a timer callback"
+        return run
+    try:
+        run.found = ce.call_method(obj, geti, [probe_key])
+    except CRaise as r:
+        if isinstance(r.exc, KeyError):
+            run.missing = True
+        else:
+            run.raised, run.raised_in = r.exc, "the lookup"
+    return run
